@@ -55,7 +55,19 @@ func (r *reader) Close() (err error) {
 	return
 }
 
+// WriteTo shadows the method of the embedded lz4.Reader, which fails once Read
+// has been called on the reader: the rest of the stream is copied with Read.
+func (r *reader) WriteTo(w io.Writer) (int64, error) {
+	return io.Copy(w, struct{ io.Reader }{r.Reader})
+}
+
 type writer struct{ *lz4.Writer }
+
+// ReadFrom shadows the method of the embedded lz4.Writer, which fails once
+// Write has been called on the writer: the source is copied with Write.
+func (w *writer) ReadFrom(r io.Reader) (int64, error) {
+	return io.Copy(struct{ io.Writer }{w.Writer}, r)
+}
 
 func (w *writer) Close() (err error) {
 	if z := w.Writer; z != nil {
